@@ -15,6 +15,27 @@ CHECKS = {
             "Trusted: cvxpy solvers return what EAO reports; column labels as documented. Infeasible cases and set-up "
             "errors of special variants make no claim (counted).",
             "DESIGN.md 5 C01"),
+    "C02": ("property-based testing (Hypothesis): differential against an independently written reference LP solved by scipy-HiGHS",
+            "Exploration: every generated portfolio is translated twice - by EAO and by a ~250-line textbook model written "
+            "from the spec - and both optima are compared; EAO's solution is mapped into the reference model and must be "
+            "feasible there and worth the same. Right level: the property is a translation-correctness claim over all "
+            "'programs' (portfolios); a differential oracle needs no knowledge of which row binds.",
+            "Trusted: refmodel.py (conventions in its docstring), scipy HiGHS linprog, timeline.py. Periods and windows on step boundaries.",
+            "DESIGN.md 5 C02"),
+    "C03": ("property-based testing (Hypothesis): validity predicate + differential against scipy-HiGHS on raw and assembled problems",
+            "Exploration: generated raw problems with all row classes, duplicated mapping rows and every form of the bool "
+            "column, plus assembled LP/MIP/split problems, are optimised with every installed solver choice; the returned "
+            "vector is checked row by row and the value against an independent optimum; failure reports against an "
+            "independent infeasibility proof.",
+            "Trusted: scipy HiGHS (MIP presolve switched off after it proved wrong, see DESIGN 6.2); a deviation that another "
+            "solver behind the same EAO translation does not share is attributed to the solver backend, not to EAO.",
+            "DESIGN.md 5 C03"),
+    "C20": ("property-based testing (Hypothesis): differential against an independent one-variable-per-order LP/MILP + output predicates + metamorphic removal",
+            "Exploration: generated order lists (inside/straddling/outside the horizon, overlapping, zero capacity, full "
+            "execution) with companions; optimum compared with an independent formulation, reported fractions, dispatch "
+            "and costs recomputed from the statement, inert orders removed.",
+            "Trusted: refmodel.py order-book part, scipy HiGHS (milp, presolve off).",
+            "DESIGN.md 5 C20"),
     "C04": ("property-based testing (Hypothesis): accounting identities between value, cost vector and DCF table",
             "Exploration: for generated portfolios (incl. split/periodic/coarse/scaled/structured/order books) the DCF table "
             "is compared with -c.x over each asset's own variable range derived independently from the concatenation "
